@@ -1,5 +1,6 @@
 from typing import Any, Dict, Literal, Optional
 
+from pydantic import Extra
 from pydantic.fields import ModelField
 
 from ..util import is_public_name
@@ -71,6 +72,15 @@ def add_const_fields(consts: Dict[str, Any], *, override: bool = False):
 
     def add_fields(mcls):
         _expect_schema_class(mcls)
+
+        # constants are always dumped, so a parent that forbids extra fields
+        # could not parse instances carrying constants it does not know about
+        parent = mcls.__base__
+        if parent.__config__.extra is Extra.forbid:
+            if unknown := set(consts.keys()) - set(parent.__fields__.keys()):
+                msg = f"{mcls.__name__}: Cannot add new constant fields {unknown} "
+                msg += "if parent forbids extra fields!"
+                raise TypeError(msg)
 
         # hacking it in-place approach:
         overridden = set()
